@@ -701,7 +701,12 @@ impl<'r> Lowerer<'r> {
             .map(|a| {
                 let ty = self.type_info.type_of(a);
                 let ty = self.type_info.convert(&ty);
-                (self.expr(a), ty)
+                // The value must be assigned to a variable right away: the
+                // lowered value can still be an unevaluated call and the
+                // arguments have to be evaluated from left to right.
+                let value = self.expr(a);
+                let var = self.assign_to_var(value, ty);
+                (Value::Move(var), ty)
             })
             .collect();
         self.make_enum(ty, variant, &arguments)
